@@ -137,6 +137,12 @@ CLAIMED["C07"]["text"] += " VerifC07ShippedResolvers: the guess and simple resol
 CLAIMED["C15"]["text"] += " VerifC15LineDirective: the real pipeline on a source with a //line directive that moves the reported line numbers far beyond the physical line count (the parser's line infos are replayed into the engine's FileSet through the real AddLineColumnInfo). The gap lemma next to Bad nodes uses two items per gap (a comment on a line of its own in front of the Bad node) and requires the Bad node's extent to be unchanged."
 CLAIMED["C12"]["text"] += " RestoreFile harness: the file may end in a block comment with nothing behind it; after a second RestoreFile (same or new FileRestorer) the first file's comments are still ordered and inside its file."
 
+# ---- thorough-tier status at the end of the build round
+for _p in ("C05", "C08", "C15", "C02", "C01", "C12"):
+    CLAIMED[_p]["note"] += " Thorough tier: not re-run to completion on the final commit (see DESIGN.md section 4); the quick tier is what was shown clean on the final tree."
+for _p in ("C07", "C04"):
+    CLAIMED[_p]["note"] += " Thorough tier completed clean on the final commit (C07 630 s, C04 254 s)."
+
 NOT_YET = "check not built yet in this round (work in progress; see DESIGN.md section 7 for the order)"
 
 def main():
